@@ -7,6 +7,7 @@ from vf.props import synthgen
 class C15(Property):
     id = 'C15'
     number = 15
+    fuzz_targets = {'fuzz_segments': 30000}      # atheris campaign in the thorough tier (crashes are replayed through run())
     technique = ("generated-input search ordered by size: bounded-exhaustive (vrl, L) window through DLISWriter and "
                  "size-minimal / size-extreme valid file specifications through DLISFile.write; oracle = the write "
                  "returns normally and the file passes the strict framing parser")
